@@ -121,6 +121,13 @@ func (fe *FnEnc) loopEnv(st *State, l *Loop) *Env {
 
 func (e *Env) lookup(name string) (SVal, bool) {
 	fe := e.fe
+	if name == "recv" && e.useLocals {
+		if _, bound := e.bound[name]; !bound && fe.fn.Signature.Recv() != nil && len(fe.fn.Params) > 0 {
+			if _, isName := e.names[name]; !isName {
+				name = fe.fn.Params[0].Name()
+			}
+		}
+	}
 	if v, ok := e.bound[name]; ok {
 		return v, true
 	}
@@ -1118,6 +1125,46 @@ func (fe *FnEnc) trCall(x ECall, env *Env) SVal {
 	case "flag": // flag("name"): the variable a command line flag of that name was registered for (0: none)
 		k := fe.tr(x.Args[0], env)
 		return SVal{T: tSel(fe.getComp(env.state(), "FLAGS", arrSort(sStr, sInt)), k.T), Typ: types.Typ[types.UnsafePointer]}
+	case "teeA", "teeB": // what a writer made by io.MultiWriter(a, b) writes to (as object identities)
+		v := fe.mat(fe.tr(x.Args[0], env), env)
+		fe.declFun("tee.a", []string{sInt}, sInt)
+		fe.declFun("tee.b", []string{sInt}, sInt)
+		k := v.T
+		if k.Sort == sIface {
+			k = ifVal(k)
+		}
+		fn := "tee.a"
+		if x.Fn == "teeB" {
+			fn = "tee.b"
+		}
+		return SVal{T: Term{app(fn, k), sInt}, Typ: types.Typ[types.UnsafePointer]}
+	case "hashOf": // the hash object of a digester
+		v := fe.mat(fe.tr(x.Args[0], env), env)
+		fe.declFun("digester.hash", []string{sInt}, sInt)
+		k := v.T
+		if k.Sort == sIface {
+			k = ifVal(k)
+		}
+		return SVal{T: Term{app("digester.hash", k), sInt}, Typ: types.Typ[types.UnsafePointer]}
+	case "objOf": // identity of the object behind an interface value or pointer
+		v := fe.mat(fe.tr(x.Args[0], env), env)
+		k := v.T
+		if k.Sort == sIface {
+			k = ifVal(k)
+		}
+		return SVal{T: k, Typ: types.Typ[types.UnsafePointer]}
+	case "inside": // inside(p, dir): path p is below directory dir
+		declPathFuns(fe)
+		a := fe.mat(fe.tr(x.Args[0], env), env)
+		b := fe.mat(fe.tr(x.Args[1], env), env)
+		return SVal{T: Term{app("path.inside", a.T, b.T), sBool}, Typ: types.Typ[types.Bool]}
+	case "safeRel": // safeRel(s): s is a relative path without .. elements
+		declPathFuns(fe)
+		a := fe.mat(fe.tr(x.Args[0], env), env)
+		pathSafeFacts(fe, a.T)
+		return SVal{T: Term{app("path.safe", a.T), sBool}, Typ: types.Typ[types.Bool]}
+	case "fswrites": // number of file system mutations so far (ghost)
+		return SVal{T: fe.getComp(env.state(), "fswrites", sInt), Typ: types.Typ[types.Int]}
 	case "truncated": // a body was read through a LimitReader that cut it short
 		return SVal{T: fe.getComp(env.state(), "truncated", sBool), Typ: types.Typ[types.Bool]}
 	case "blobReady":
@@ -1379,6 +1426,11 @@ func (fe *FnEnc) trCall(x ECall, env *Env) SVal {
 		var rt types.Type
 		if rs == sBool {
 			rt = types.Typ[types.Bool]
+		} else if g.Ret != "Bytes" && g.Ret != "Ref" && g.Ret != "error" && !strings.HasPrefix(g.Ret, "set[") {
+			func() {
+				defer func() { _ = recover() }()
+				rt = env.resolveType(g.Ret)
+			}()
 		}
 		if len(args) == 0 {
 			return SVal{T: Term{n, rs}, Typ: rt}
